@@ -676,6 +676,19 @@ func c19Stats(cases []string) map[string]int {
 	for _, c := range cases {
 		f := strings.Fields(c)
 		st["op."+f[0]]++
+		if f[0] == "khist" { // one stage, several contexts: how many, and how many bring a text ParseFloat rejects
+			st["khist.contexts"] += (len(f) - 3) / 2
+			for _, fld := range f[3:] {
+				for _, t := range UnHexListS(fld) {
+					if _, err := strconv.ParseFloat(t, 64); err != nil {
+						st["khist.text-not-a-float"]++
+					}
+				}
+			}
+		}
+		if f[0] == "meta" && (strings.Contains(f[4], "=7ff") || strings.Contains(f[4], "=fff")) {
+			st["meta.inf-or-nan-constant-or-binding"]++
+		}
 		if f[0] != "math" {
 			continue
 		}
